@@ -49,6 +49,7 @@ type Contract struct {
 	LoopInv     map[int][]*Clause
 	LoopDec     map[int]*Clause
 	LoopMod     map[int][]string
+	LoopStep    map[int][]*Clause // two-state assertions per iteration
 	Trusted     bool
 	Strict      bool
 	Pure        bool
@@ -506,6 +507,16 @@ func (cs *ContractSet) addClause(cur **Contract, pkgPath, pos, text string) erro
 				return err
 			}
 			c.LoopInv[k] = append(c.LoopInv[k], cl)
+		case strings.HasPrefix(r, "step"):
+			// loop k step[..] E: holds at the end of every iteration; old() = the state at the start of that iteration
+			cl, err := mk("step", strings.TrimPrefix(r, "step"), k)
+			if err != nil {
+				return err
+			}
+			if c.LoopStep == nil {
+				c.LoopStep = map[int][]*Clause{}
+			}
+			c.LoopStep[k] = append(c.LoopStep[k], cl)
 		case strings.HasPrefix(r, "decreases"):
 			cl, err := mk("decreases", strings.TrimPrefix(r, "decreases"), k)
 			if err != nil {
